@@ -1,8 +1,12 @@
 (* C10 — transaction filtering finds every relevant transaction, in any block order.
    Only statements; every proof is `exact <lemma proved in Bloom/BloomTx*Proofs.v>`.
+
    The filter is abstract: any state type with contains/insert satisfying [filter_laws]
-   (inserted items are contained; containment is monotone under insertion). *)
-From BU Require Import Lib.Bytes Bloom.BloomTx Bloom.BloomTxSpec Bloom.BloomTxProofs.
+   (inserted items are contained; containment is monotone under insertion).  Script
+   parsing (txscript.PushedData / GetScriptClass) is data carried by the transactions.
+   Model: Bloom/BloomTx.v; vocabulary (matches_spec, filter_before, Rel, ...): Bloom/BloomTxSpec.v. *)
+From BU Require Import Lib.Bytes Bloom.BloomTx Bloom.BloomTxSpec Bloom.BloomTxProofs Bloom.BloomTxScanProofs Bloom.BloomTxInst.
+From Coq Require Import Permutation.
 
 Section C10.
   Variables (F item txid : Type).
@@ -12,7 +16,16 @@ Section C10.
   Variable id_item : txid -> item.
   Variable op_item : txid -> N -> item.
   Hypothesis laws : filter_laws contains insert.
+  Hypothesis txid_eqb_spec : forall a b, txid_eqb a b = true <-> a = b.
 
+  (* matchTxAndUpdate returns true exactly when the filter contains the transaction id, or a
+     data push of an output script (each output tested against the filter as already updated
+     by the earlier outputs of the same transaction: the code's evaluation order), or an
+     outpoint the transaction spends, or a data push of an input script.  The filter
+     afterwards is the initial one updated output by output; every output that hit has its
+     outpoint contained afterwards when the update flag allows its script class (All: always,
+     P2PubkeyOnly: pay-to-pubkey and multisig, anything else: never); when no output hits the
+     filter is unchanged. *)
   Theorem C10_match_iff : forall fl f (t : tx item txid),
     let r := match_tx_update contains insert id_item op_item fl f t in
     let before := filter_before contains insert op_item fl f t in
@@ -26,5 +39,97 @@ Section C10.
           flag_allows fl (o_class o) = true -> contains (snd r) (op_item (t_id t) (N.of_nat k)) = true)
     /\ ((forall k o, nth_error (t_outs t) k = Some o -> out_hit contains (before k) o = false) -> snd r = f).
   Proof. exact (match_iff _ _ _ contains insert id_item op_item laws). Qed.
+
+  (* the same, squeezed between the plain four-way disjunction against the initial filter
+     (sufficient) and against the final filter (necessary); the filter only grows *)
+  Theorem C10_match_bounds : forall fl f (t : tx item txid),
+    let r := match_tx_update contains insert id_item op_item fl f t in
+    (matches_spec contains id_item op_item f t -> fst r = true)
+    /\ (fst r = true -> matches_spec contains id_item op_item (snd r) t)
+    /\ le_f contains f (snd r).
+  Proof.
+    exact (fun fl f t =>
+      conj (match_complete _ _ _ contains insert id_item op_item laws fl f f t (fun x H => H))
+     (conj (match_sound _ _ _ contains insert id_item op_item laws fl f t)
+           (match_le _ _ _ contains insert id_item op_item laws fl f t))).
+  Qed.
+
+  (* the scan never runs out of fuel: recursion depth <= n < n + inputs + 1 (termination) *)
+  Theorem C10_scan_terminates : forall fl f0 (txs : list (tx item txid)),
+    exists st, scan contains insert txid_eqb id_item op_item fl f0 txs = Some st.
+  Proof. exact (fun fl f0 txs => scan_fuel_enough _ _ _ contains insert txid_eqb id_item op_item laws txid_eqb_spec fl txs f0). Qed.
+
+  (* every reported index is reported once, denotes a transaction of the block, and that
+     transaction matches the FINAL filter, which contains whatever the initial one did *)
+  Theorem C10_scan_sound : forall fl f0 (txs : list (tx item txid)) st,
+    scan contains insert txid_eqb id_item op_item fl f0 txs = Some st ->
+    le_f contains f0 (s_f st) /\ NoDup (s_matched st) /\
+    forall i, In i (s_matched st) ->
+      exists t, nth_error txs i = Some t /\ matches_spec contains id_item op_item (s_f st) t.
+  Proof. exact (fun fl f0 txs => scan_sound _ _ _ contains insert txid_eqb id_item op_item laws txid_eqb_spec fl txs f0). Qed.
+
+  (* every relevant transaction is reported, whatever the order of the block: Rel is defined
+     on the block txs as a set; the scan runs on an arbitrary permutation txs'.
+     No acyclicity hypothesis is needed for the repaired algorithm (the "already matched"
+     test cuts cycles); the old algorithm needed it to terminate at all. *)
+  Theorem C10_scan_complete : forall fl f0 (txs txs' : list (tx item txid)) st',
+    Permutation txs txs' ->
+    scan contains insert txid_eqb id_item op_item fl f0 txs' = Some st' ->
+    forall t, Rel contains id_item op_item fl f0 txs t ->
+    forall k, nth_error txs' k = Some t -> In k (s_matched st').
+  Proof. exact (scan_complete _ _ _ contains insert txid_eqb id_item op_item laws txid_eqb_spec). Qed.
+
+  (* the scan performs at most n + (number of inputs) filter matches (distinct txids) *)
+  Theorem C10_scan_cost : forall fl f0 (txs : list (tx item txid)) st,
+    NoDup (map t_id txs) ->
+    scan contains insert txid_eqb id_item op_item fl f0 txs = Some st ->
+    (s_calls st <= length txs + total_inputs txs)%nat.
+  Proof. exact (fun fl f0 txs => scan_cost_here _ _ _ contains insert txid_eqb id_item op_item laws txid_eqb_spec fl txs f0). Qed.
+
+  (* The gap between C10_scan_sound and C10_scan_complete is exactly false positives: for a
+     filter in which an insertion makes nothing else contained (an exact set), with an
+     injective outpoint serialisation and no data push / txid equal to an outpoint
+     serialisation of the block, the report is exactly Rel and the final filter contains
+     exactly f0's items plus the outpoints of relevant transactions' f0-matching outputs. *)
+  Theorem C10_scan_exact_without_false_positives : forall fl f0 (txs : list (tx item txid)) st,
+    exact_insert contains insert -> op_injective op_item -> no_alias id_item op_item txs ->
+    scan contains insert txid_eqb id_item op_item fl f0 txs = Some st ->
+    (forall i, In i (s_matched st) -> exists t, nth_error txs i = Some t /\ Rel contains id_item op_item fl f0 txs t)
+    /\ (forall x, contains (s_f st) x = true ->
+          contains f0 x = true \/
+          exists p k o, Rel contains id_item op_item fl f0 txs p /\ nth_error (t_outs p) k = Some o /\
+                        out_hit contains f0 o = true /\ flag_allows fl (o_class o) = true /\
+                        x = op_item (t_id p) (N.of_nat k)).
+  Proof. exact (fun fl f0 txs st ex oi na => scan_exact _ _ _ contains insert txid_eqb id_item op_item laws txid_eqb_spec fl txs f0 ex oi na st). Qed.
+
+  (* a filter that contains nothing (unloaded) matches nothing and is left unchanged *)
+  Theorem C10_match_unloaded : forall fl f (t : tx item txid),
+    (forall x, contains f x = false) -> match_tx_update contains insert id_item op_item fl f t = (false, f).
+  Proof. exact (match_nothing _ _ _ contains insert id_item op_item). Qed.
 End C10.
 Print Assumptions C10_match_iff.
+Print Assumptions C10_match_bounds.
+Print Assumptions C10_scan_terminates.
+Print Assumptions C10_scan_sound.
+Print Assumptions C10_scan_complete.
+Print Assumptions C10_scan_cost.
+Print Assumptions C10_scan_exact_without_false_positives.
+Print Assumptions C10_match_unloaded.
+
+(* The algorithm as it was before the repair (verbatim copy: no "already matched" test)
+   violates the cost bound: a six-transaction chain in reverse order needs 120 matches. *)
+Theorem C10_scan_cost_old_refuted :
+  exists (txs : list (tx N N)) (f0 : list N) (fuel : nat) (st : sstate (list N)),
+    NoDup (map t_id txs) /\
+    scan_old (set_contains N N.eqb) (set_insert N) N.eqb xid xop fuel UpdAll f0 txs = Some st /\
+    (s_calls st > length txs + total_inputs txs)%nat.
+Proof. exact scan_cost_old_refuted. Qed.
+Print Assumptions C10_scan_cost_old_refuted.
+
+(* the hypotheses are satisfiable: an exact set and the bloom filter's bit-set semantics both
+   satisfy the laws; the former also satisfies exact_insert *)
+Example C10_laws_satisfiable :
+  filter_laws (set_contains N N.eqb) (set_insert N) /\ exact_insert (set_contains N N.eqb) (set_insert N)
+  /\ forall bits : N -> N, filter_laws (mask_contains N bits) (mask_insert N bits).
+Proof. exact (conj (set_laws N N.eqb N_eqb_spec) (conj (set_exact N N.eqb N_eqb_spec) (mask_laws N))). Qed.
+Print Assumptions C10_laws_satisfiable.
